@@ -10,5 +10,8 @@ void harness(void) {
   for (size_t i = 0; i < input.n; i++) if (BIT_AT(set, input.p[i])) any = 1;
   str_t a = percent_encode(input, set);
   __CPROVER_assert(ref_bytes_eq(a.d, a.n, ref, rn), "postcondition: percent_encode(input,set) == reference encoding");
+  /* used as a skeleton contract by C05.parse_url_impl.opaque_path_no_trailing_space: for a set without the space, the output
+   * ends in a space exactly when the input does (an escape ends in a hex digit, a verbatim byte is copied) */
+  __CPROVER_assert(BIT_AT(set, ' ') || ((a.n > 0 && a.d[a.n - 1] == ' ') == (input.n > 0 && input.p[input.n - 1] == ' ')), "postcondition: trailing space preserved exactly (set without space)");
   CANARY_POINT;
 }
